@@ -1263,7 +1263,7 @@ v("C16", "limit-not-consulted", "break", BASE,
   "            if not self.remote_session_limit_reached:\n                remote_session = RemoteUserSession.create(",
   "            if True:\n                remote_session = RemoteUserSession.create(", "R16.2", "remote logins ignore the session limit")
 v("C16", "timeout-keeps-connection", "break", BASE,
-  "            self.parent.terminal._connections.pop(session.uuid)\n", "", "R16.6", "timed-out session keeps its terminal connection")
+  "            self.parent.terminal._connections.pop(session.uuid, None)\n", "", "R16.6", "timed-out session keeps its terminal connection")
 v("C16", "first-session-only", "break", BASE,
   "                logged_out = self._logout(local=False, remote_session_id=sess_id) or logged_out\n",
   "                logged_out = self._logout(local=False, remote_session_id=sess_id) or logged_out\n                break\n", "R16.7", "the original defect")
